@@ -41,17 +41,18 @@ impl ParsleyParser for WhitespaceNoEOL {
     fn parse(&mut self, buf: &mut dyn ParseBufferT) -> ParseResult<Self::T> {
         let start = buf.get_cursor();
         let ws = buf.parse_allowed_bytes(b" \0\t\r\x0c")?;
-        if ws.is_empty() && !self.empty_ok {
-            let end = buf.get_cursor();
-            let err = ErrorKind::GuardError("not at whitespace-noeol".to_string());
-            return Err(LocatedVal::new(err, start, end))
-        };
         // If the last character is '\r' (13), check if the next one
         // is '\n' (10).  If so, rewind by one character.
         if (ws.last() == Some(&13)) & (buf.peek() == Some(10)) {
             buf.decr_cursor_unsafe();
         }
         let end = buf.get_cursor();
+        // The check for non-empty whitespace comes after the rewind,
+        // which might have given back the only byte consumed.
+        if start == end && !self.empty_ok {
+            let err = ErrorKind::GuardError("not at whitespace-noeol".to_string());
+            return Err(LocatedVal::new(err, start, end))
+        };
         Ok(LocatedVal::new((), start, end))
     }
 }
